@@ -176,14 +176,7 @@ def json_roundtrip(rng, n):
     return lines
 
 
-class RawProc(t3.Proc):
-    """a process whose command pattern is given literally (outputs that are directories, say)"""
-    def __init__(self, name, rawpat, **kw):
-        t3.Proc.__init__(self, name, **kw)
-        self.rawpat = rawpat
-
-    def pattern(self):
-        return self.rawpat
+RawProc = t3.RawProc
 
 
 def dir_output_case(args):
